@@ -9,6 +9,7 @@ import (
 	"go/constant"
 	"go/token"
 	"go/types"
+	"regexp"
 	"strings"
 )
 
@@ -413,6 +414,7 @@ func (ex *Exec) unknownCall(st *State, ref string, recv *Val, args []*Val, resT 
 	}
 	ex.havocAllHeap(st, ref)
 	ex.keepGhosts = false
+	ex.reassumeObjInvs(st)
 	// locals whose address was passed are havocked too
 	for _, a := range append([]*Val{recv}, args...) {
 		if a != nil && a.Loc != nil && !a.Loc.Heap {
@@ -658,13 +660,31 @@ func (ex *Exec) applyContract(st *State, c *Contract, fn *types.Func, recv *Val,
 			ex.oblig(st, "pre@call", fmt.Sprintf("pre(%s)%s@call%d", c.Func, name, ex.callOrd(c.Func, pos)), pos, g.S, "requires "+cl.Text)
 		}
 	}
+	// object invariants of the callee's receiver must hold at the call (visible-state semantics)
+	if scCaller == nil && ex.discovery == 0 && recv != nil && !c.Unshared {
+		if sig, ok := fn.Type().(*types.Signature); ok && sig.Recv() != nil {
+			if n := namedOf(sig.Recv().Type()); n != nil {
+				for _, oi := range ex.eng.cs.ObjInvs[typeKey(n)] {
+					if oi.Expr == nil {
+						continue
+					}
+					osc := &SpecCtx{old: pre, binds: map[string]*Val{"this": recv}, subst: map[types.Object]*Val{}, pkg: fn.Pkg()}
+					ex.curClause = "objinv " + oi.Name
+					g := ex.eval(st, oi.Expr, osc)
+					ex.oblig(st, "objinv@call", fmt.Sprintf("objinv(%s):%s@call%d", c.Func, oi.Name, ex.callOrd(c.Func+"#inv", pos)), pos, g.S, "object invariant "+oi.Name+" holds when "+c.Func+" is called")
+				}
+			}
+		}
+	}
 	// havoc the frame
 	if c.Havoc {
 		ex.havocAllHeap(st, c.Func)
+		ex.reassumeObjInvs(st)
 	} else if c.HavocHeap {
 		ex.keepGhosts = true
 		ex.havocAllHeap(st, c.Func)
 		ex.keepGhosts = false
+		ex.reassumeObjInvs(st)
 	}
 	for _, cl := range c.Clauses {
 		if cl.Kind != "modifies" {
@@ -770,6 +790,37 @@ func (ex *Exec) applyGetter(st *State, c *Contract, fn *types.Func, recv *Val, a
 	return out
 }
 
+// reassumeObjInvs: after a call with unknown effects, the object invariants of the
+// current receiver are assumed to hold again (code outside the type's methods
+// cannot break them: the fields are unexported; other methods are assumed to preserve them).
+func (ex *Exec) reassumeObjInvs(st *State) {
+	if ex.fn == nil || ex.fn.Sig == nil || ex.fn.Sig.Recv() == nil || ex.fn.Obj == nil || ex.inlineDepth > 0 {
+		return
+	}
+	n := namedOf(ex.fn.Sig.Recv().Type())
+	if n == nil || len(ex.eng.cs.ObjInvs[typeKey(n)]) == 0 {
+		return
+	}
+	ex.assumption("object invariants of " + typeKey(n) + " are preserved by calls with unknown effects (visible-state semantics)")
+	recv := ex.readVar(ex.entry, ex.fn.Sig.Recv())
+	for _, oi := range ex.eng.cs.ObjInvs[typeKey(n)] {
+		if oi.Expr == nil {
+			continue
+		}
+		sc := &SpecCtx{old: ex.entry, binds: map[string]*Val{"this": recv}, subst: map[types.Object]*Val{}}
+		if ex.fn.Pkg != nil {
+			sc.pkg = ex.fn.Pkg.Types
+		}
+		ex.specDepth++
+		saved := ex.curClause
+		ex.curClause = "objinv " + oi.Name
+		g := ex.eval(st, oi.Expr, sc)
+		ex.curClause = saved
+		ex.specDepth--
+		st.assume(g.S)
+	}
+}
+
 func (ex *Exec) callOrd(ref string, pos token.Pos) int {
 	key := ref
 	m := ex.callSites[key]
@@ -785,7 +836,19 @@ func (ex *Exec) callOrd(ref string, pos token.Pos) int {
 }
 
 // havocSpecLval havocs one item of a modifies clause.
+var allGhostRe = regexp.MustCompile(`^all\((\w+)\)$`)
+
 func (ex *Exec) havocSpecLval(st *State, item string, sc *SpecCtx) {
+	if m := allGhostRe.FindStringSubmatch(item); m != nil {
+		// the whole ghost function (every index)
+		if g, ok := ex.eng.cs.Ghosts[m[1]]; ok {
+			l := ex.ghostLoc(g, []*Val{{S: "0"}})
+			key := heapKey("G$", g.Name)
+			_ = ex.heapArr(st, key, l.Sh.Leaf)
+			ex.havocHeapKey(st, key, ex.eng.heapSortOf(key))
+			return
+		}
+	}
 	e, err := parseSpecExpr(item)
 	if err != nil {
 		ex.specErr("bad modifies item %q: %v", item, err)
@@ -1010,6 +1073,29 @@ func (ex *Exec) specForm(st *State, name string, call *ast.CallExpr, sc *SpecCtx
 			return one(ex.boolVal("false"))
 		}
 		return one(ex.boolVal(and(eq(v.kid("tag").S, fmt.Sprint(tagOther)), eq(v.kid("ty").S, fmt.Sprint(typeID(t))))))
+	case "result0of", "result1of", "result2of":
+		v := ex.eval(st, call.Args[0], sc)
+		i := int(name[6] - '0')
+		if v.Sh != nil && v.Sh.Kind == "tuple" && i < len(v.Kids) {
+			return one(v.Kids[i])
+		}
+		ex.specErr("%s: argument is not a multi-value call", name)
+		return one(ex.freshVal(nil, "tuple"))
+	case "implements":
+		v := ex.eval(st, call.Args[0], sc)
+		t := ex.resolveType(call.Args[1], sc)
+		if t == nil || v.Sh == nil || v.Sh.Kind != "any" {
+			ex.specErr("implements(v, I): v must be an `any` value and I an interface type")
+			return one(ex.boolVal("false"))
+		}
+		_, ok := ex.typeAssert(st, v, t)
+		return one(ex.boolVal(ok))
+	case "refOf":
+		v := ex.eval(st, call.Args[0], sc)
+		if v.Sh != nil && v.Sh.Kind == "any" {
+			return one(&Val{Sh: leafShape(types.Typ[types.UnsafePointer], "Int"), T: types.Typ[types.UnsafePointer], S: v.kid("ref").S})
+		}
+		return one(v)
 	case "asPtr", "asType":
 		v := ex.eval(st, call.Args[0], sc)
 		t := ex.resolveType(call.Args[1], sc)
